@@ -5,7 +5,7 @@ lawful — by C03's `undoBlock_applyBlock` (= `BV.C03.undo_apply_id`) and
 (`BV.C05.prefix_durable`, here through the same lemmas `crash_safe`/`init_inv`)
 supplies "a crash leaves the image of a prefix of the commits".
 -/
-import BV.C04.Lemmas8
+import BV.C04.Lemmas11
 import BV.C04.C03Alg
 import BV.C03.ValidLemmas
 import BV.C05.Lemmas2
@@ -59,6 +59,57 @@ theorem c03_fold (c : Chain) (h : ChainOk c) :
 theorem c03_fold_spec (c : Chain) (h : ChainOk c) :
     (utxoOf C03Alg c).set = Spec.utxoOf (c.reverse.map toBlock) := by
   rw [c03_fold c h, ← BV.C03.Lemmas.utxoOf_reverse, List.map_reverse]
+
+theorem chainOk_of_vchain : ∀ (c : Chain), VChain C03Alg c → ChainOk c := by
+  intro c
+  induction c with
+  | nil => intro _; trivial
+  | cons b c ih =>
+    intro h
+    refine ⟨?_, ih (vchain_suffix h (List.suffix_cons b c))⟩
+    have := h b c (List.suffix_refl _)
+    have h2 : (!b.bad && c03ok b (utxoOf C03Alg c)) = true := this
+    simp only [Bool.and_eq_true] at h2
+    exact h2.2
+
+/-- For every workload and every prefix of its commit list the reopened node's unspent-output
+set is C03's Spec fold of the blocks of its tip — no validity hypothesis left: that the
+persisted chain consists of blocks C03's check accepted is `prefix_valid_aux`. -/
+theorem recovered_is_c03_fold (cfg cfg' : Cfg) (hp : cfg.prune = none) (ops : List Op)
+    (nd0 : Node C03Alg) (h0 : recover cfg (Image.empty C03Alg) = .ok nd0) (k : Nat) :
+    ∃ rn, recover cfg' (replay (Image.empty C03Alg) ((runOps cfg nd0 ops).log.take k)) = .ok rn ∧
+      rn.tip ∈ activeTips ((runOps cfg nd0 ops).log.take k) ∧
+      rn.utxo.set = Spec.utxoOf (rn.tip.reverse.map toBlock) ∧
+      (∀ n, n ∈ rowKeys ((runOps cfg nd0 ops).log.take k) → n ∈ keys rn.index) := by
+  have hvi := prefix_valid_aux c03_lawful cfg hp ops nd0 h0 k
+  obtain ⟨nd0', r0, g0, _⟩ := recover_empty_spec (A := C03Alg) cfg
+  rw [r0] at h0
+  have hnd : nd0' = nd0 := by injection h0
+  subst hnd
+  obtain ⟨gfin, _⟩ := runOps_spec c03_lawful cfg hp ops nd0' g0
+  have hs := (gfin.core.sound k).1
+  rcases hs with hs | hs
+  · rw [hs]
+    obtain ⟨rn, r, g, t⟩ := recover_empty_spec (A := C03Alg) cfg'
+    refine ⟨rn, r, ?_, ?_, ?_⟩
+    · rw [t]; exact List.mem_cons_self
+    · rw [g.utxo_eq, t]; rfl
+    · intro n hn
+      have := (rows_replay _ (Image.empty C03Alg) n).mpr (Or.inr hn)
+      rw [hs] at this
+      simp [Image.empty, keys] at this
+  · obtain ⟨rn, r, g, t, hrows⟩ := recover_spec cfg' hs
+    refine ⟨rn, r, ?_, ?_, ?_⟩
+    · rw [t]
+      rcases best_replay ((runOps cfg nd0' ops).log.take k) (Image.empty C03Alg) with h | h
+      · rw [h]; exact List.mem_cons_self
+      · exact List.mem_cons_of_mem _ h
+    · rw [g.utxo_eq]
+      apply c03_fold_spec
+      rw [t]
+      exact chainOk_of_vchain _ hvi.1
+    · intro n hn
+      exact hrows n ((rows_replay _ (Image.empty C03Alg) n).mpr (Or.inr hn))
 
 /-! ### (2) C05 -/
 
